@@ -1,15 +1,22 @@
 #!/bin/bash
 # Regression sweep: every seeded change must make the quick check of its own property exit 1 with a
 # VIOLATION line (never 0, never 2). Writes seeded/SWEEP.txt.
+# usage: seedsweep.sh [glob]   (default: all; e.g. 'C*-[56]' re-checks only rounds 5 and 6 and MERGES into SWEEP.txt)
 cd /verif
 out=seeded/SWEEP.txt
+pat=${1:-C*}
 : > $out.tmp
-for d in seeded/C*/; do
+for d in seeded/$pat/; do
   n=$(basename $d); id=${n%%-*}
   res=$(VERIF_MUTANT=$n ./check $id quick 2>&1)
   rc=$?
   v=$(echo "$res" | grep -c '^VIOLATION')
   echo "$n own-check=$id exit=$rc violation_lines=$v" | tee -a $out.tmp
 done
+if [ "$pat" != "C*" ] && [ -f $out ]; then
+  # keep the lines of the changes that were not re-run
+  while read -r line; do n=${line%% *}; grep -q "^$n " $out.tmp || echo "$line" >> $out.tmp; done < $out
+  sort -V -o $out.tmp $out.tmp
+fi
 mv $out.tmp $out
 echo "caught: $(grep -c 'exit=1' $out) of $(wc -l < $out)"
